@@ -54,7 +54,10 @@ RULE = (
     "AFTER code generation by an inherited __attrs_init_subclass__, a base __init_subclass__ or a metaclass and 4 of the 15 bodies slotted with a cached property (second script: the nested __getattr__, with or without an own "
     "__getattr__, so twins' getattr scripts differ while their methods scripts coincide or not) -- over qualnames C, C-1, C-2, C-1-1, D x 11 bodies (two with identical source, one whose source "
     "embeds the qualname) x pre-seeded foreign entries on colliding filenames; conc: 2-4 threads x bodies x schedules "
-    "(exhaustive over 2 threads x <=4 operations, random above). non-trivial = herm: at least one field-derived helper name "
+    "(exhaustive over 2 threads x <=4 operations, random above). harness-only for hist/conc (the model is independent of both; "
+    "the generated scripts are unchanged): a third of the non-refused definitions inherit from a field-less attrs class (dict "
+    "or slotted), so the class being built already sees inherited __attrs_attrs__ etc.; in 30% of the cases the synthetic "
+    "module is NOT registered in sys.modules while its classes are defined and inspected. non-trivial = herm: at least one field-derived helper name "
     "is loaded; hist/conc: at least two definitions contend for one filename. distinct = distinct JSON case"
 )
 ASSUMPTIONS = [
@@ -69,6 +72,9 @@ ASSUMPTIONS = [
     "sharing of user objects between fields and with earlier classes is harness-only variation: a Lean Case has no object "
     "identities and no history, the model says sharedOk = true; pooled objects tag results with (kind, signature, group), so "
     "a call that reaches an object of another group -- or a helper name that is not bound -- differs from the fresh twin",
+    "hist/conc: a definition's base (object / field-less attrs class, dict or slotted) and whether the synthetic module is "
+    "registered in sys.modules are harness-only variation: a Lean Def has neither, the linecache loop of the model (and of "
+    "_linecache_and_compile) does not look at the class; the observation must still equal the model's files/entries/sourceOk",
 ]
 LEVEL_TEXT = (
     "Lean theorems about an executable model of the globals assembly, helper naming scheme and linecache loop of "
@@ -451,6 +457,11 @@ def rand_defs(rng, n, contend=True):
             d = {"qual": rng.choice(quals), "body": rng.randrange(len(CC.BODIES))}
         if rng.random() < 0.25:
             d["fails"], d["failHow"] = True, rng.choice(FAIL_HOW)
+        # harness-only: the class's (non-refusing) base is object or a field-less attrs class (dict or slotted) -- same
+        # scripts, but the class being built already inherits __attrs_attrs__ and the other attrs markers
+        d.pop("base", None)
+        if not d.get("fails") and rng.random() < 0.35:
+            d["base"] = rng.choice(["attrs", "attrs", "attrsSlots"])
         out.append(d)
     return out
 
@@ -499,6 +510,20 @@ def gen_cache_fixed():
                                       {"qual": "C-1", "body": 8}, dict(R, qual="C-1", body=8)], [["C", [1, 900]]], [], cfg)
             yield cache_case("conc", [{"qual": "C", "body": 0}, dict(R, qual="C", body=0), dict(R, qual="C", body=1)], [],
                              [1, 0, 2, 1, 0], cfg)
+    # same-qualname histories in which some definitions inherit from a (field-less) attrs class, and histories in a
+    # module that is not registered in sys.modules: every class still claims and keeps its own entry
+    A = {"base": "attrs"}
+    for cfg in cfgs + [{"api": "class", "slots": True}]:
+        for reg in (True, False):
+            cfg2 = dict(cfg, registered=reg)
+            yield cache_case("hist", [{"qual": "C", "body": 0}, dict(A, qual="C", body=1), {"qual": "C", "body": 2},
+                                      dict(A, qual="C", body=0), dict(A, qual="C", body=3, base="attrsSlots"),
+                                      {"qual": "C", "body": 1}], [], [], cfg2)
+            yield cache_case("hist", [dict(A, qual="C", body=8), {"qual": "C-1", "body": 4}, dict(A, qual="C", body=5),
+                                      dict(A, qual="C-1", body=12), {"qual": "C", "body": 11}, dict(A, qual="C", body=14)],
+                             [["C", [1, 900]]], [], cfg2)
+            yield cache_case("conc", [{"qual": "C", "body": 0}, dict(A, qual="C", body=1), dict(A, qual="C", body=2)], [],
+                             [1, 0, 2, 1, 0], cfg2)
     # two threads, every pair of bodies from a small set, every schedule of up to 4 operations
     for b0, b1 in itertools.product([0, 1, 2, 3], repeat=2):
         for k in range(0, 5):
@@ -509,7 +534,8 @@ def gen_cache_fixed():
 
 def gen_cache_random(rng):
     while True:
-        cfg = {"api": rng.choice(["class", "make_class"]), "slots": rng.random() < 0.3}
+        cfg = {"api": rng.choice(["class", "make_class"]), "slots": rng.random() < 0.3,
+               "registered": rng.random() < 0.7}
         if rng.random() < 0.5:
             yield cache_case("hist", rand_defs(rng, rng.randint(1, 6)), rand_pre(rng), [], cfg)
         else:
@@ -522,7 +548,8 @@ def gen_cases(tier, rng):
     yield from catalogue(rng)
     fixed = list(gen_cache_fixed())
     if tier == "quick":
-        special = lambda c: any(d.get("fails") or d.get("gscript") is not None for d in c["defs"])  # noqa: E731
+        special = lambda c: (any(d.get("fails") or d.get("gscript") is not None or d.get("base") for d in c["defs"])  # noqa: E731
+                             or not c["cfg"].get("registered", True))
         keep = [c for c in fixed if special(c)]
         rest = [c for c in fixed if not special(c)]
         rng.shuffle(rest)
@@ -721,6 +748,8 @@ def dist(case, obs):
         }
     return {"kind": case["kind"], "n_defs": len(case["defs"]), "n_pre": len(case["pre"]),
             "refused": sum(1 for d in case["defs"] if d.get("fails")),
+            "attrs_base": sum(1 for d in case["defs"] if d.get("base")),
+            "module_registered": case["cfg"].get("registered", True),
             "getattr_scripts": sum(1 for d in case["defs"] if d.get("gscript") is not None),
             "distinct_gfiles": len(set(obs.get("gfiles", []))) if isinstance(obs, dict) else "?",
             "refused_twin": sum(1 for i, d in enumerate(case["defs"]) if d.get("fails") and any(
@@ -776,6 +805,11 @@ def shrink(case):
             yield dict(case, sched=case["sched"][:i] + case["sched"][i + 1:])
         for i in range(len(case["pre"])):
             yield dict(case, pre=case["pre"][:i] + case["pre"][i + 1:])
+        for i, d in enumerate(ds):
+            if d.get("base"):
+                yield dict(case, defs=ds[:i] + [{k: v for k, v in d.items() if k != "base"}] + ds[i + 1:])
+        if not case["cfg"].get("registered", True):
+            yield dict(case, cfg=dict(case["cfg"], registered=True))
 
 
 def _copy(case):
